@@ -244,7 +244,11 @@ void h_db_corrupt_prev(void) {
   ldb_dbiter_t it; int bad;
   setup(&it);
   ASSUME(it.valid && db_ri(&it));
-  corrupt_one(&bad);
+  /* Reverse scans: only a bad TYPE byte is injected here.  A key shorter than 8 bytes never reaches the DB
+     iterator - the block layer rejects it (blk.iter.parse: internal key shorter than 8 => corruption) and memtable
+     keys are well-formed (mem.add); with such a key the switch loop of ldb_dbiter_prev would hand the comparator
+     a slice of size-8 (recorded as an observation in DESIGN.md 10.3, same in LevelDB release builds). */
+  { IN_INT(in_bad); ASSUME(in_bad >= 0 && in_bad < N_); CUR_KEY[0][in_bad][1] = 2; bad = in_bad; }
   ASSUME(it.direction != LDB_FORWARD || CUR[0].pos != bad);   /* the entry shown itself parses */
   ldb_dbiter_prev(&it);
   CHECK(!it.valid || it.saved_key.size == 1, "dbiter prev: yields a parsed user key");
